@@ -95,6 +95,38 @@ class C17Episode(Episode):
         self.would_block = []
         self._orig_redirector = circus.watcher.Redirector
         circus.watcher.Redirector = CountingRedirector
+        # helpers: descendants of a worker that hold its pipe open and keep
+        # writing (a real concurrent process refills the pipe while the
+        # daemon reads it: modelled at the os.read seam of the redirector)
+        import sys as _sys
+        import circus.stream.redirector as _rmod
+        from ..zmqsim import ModProxy
+        self.helpers = {}            # daemon-side read fd -> state
+        self.flush_reads = {}        # (fd, loop step) -> reads by the flush
+        self._orig_redir_os = _rmod.os
+        real_read = os.read
+
+        def sim_read(fd, n):
+            data = real_read(fd, n)
+            h = ep.helpers.get(fd)
+            if h is not None and h['active'] and data and \
+                    _sys._getframe(1).f_code.co_name == 'flush_redirections':
+                key = (fd, ep.world.sim.steps)
+                c = ep.flush_reads.get(key, 0) + 1
+                ep.flush_reads[key] = c
+                if c > ep.cfg.get('flush_read_bound', 10000):
+                    ep.viol('flush_never_ends',
+                            'flush_redirections() read descriptor %d (pid %d '
+                            '%s) %d times within one event-loop step while '
+                            'a helper process kept the pipe full: the loop '
+                            'is stalled for as long as it writes'
+                            % (fd, h['pid'], h['ch'], c), once='flood',
+                            spin_in='flush_redirections')
+                    h['active'] = False
+                else:
+                    ep.helper_fill(h)
+            return data
+        _rmod.os = ModProxy(os, read=sim_read)
         self.world = World(self.cfg)
         ws = []
         for wc in self.cfg['watchers']:
@@ -141,6 +173,10 @@ class C17Episode(Episode):
         if plan.get('exit') is not None:
             sim.after(t + plan['exit'], lambda pid=p.pid: self.do_exit(pid),
                       'write')
+        if plan.get('helper'):
+            hp = plan['helper']
+            sim.after(hp['at'], lambda pid=p.pid: self.start_helper(
+                pid, hp['ch'], hp['life']), 'write')
 
     def pipe_of(self, p, ch):
         return p.stdout_w if ch == 'stdout' else p.stderr_w
@@ -265,6 +301,11 @@ class C17Episode(Episode):
                 w = st['written'][ch]
                 if not w:
                     continue
+                if ch in st.get('flooded', ()):
+                    # a helper kept writing while the daemon closed the
+                    # pipe: only order / labelling are judged
+                    self.probes['flooded_channels'] += 1
+                    continue
                 got = sum(len(d) for (l, d) in rec.get((pid, ch), []))
                 self.probes['channels_checked'] += 1
                 if got == w:
@@ -369,6 +410,11 @@ class C17Episode(Episode):
         live_r = 0
         dead_open = []
         seen = set()
+        for h in getattr(self, 'helpers', {}).values():
+            pe = h['pe']
+            if pe is not None and not pe.closed and id(pe) not in seen:
+                seen.add(id(pe))
+                wends += 1
         for p in k.procs.values():
             for pe in (p.stdout_w, p.stderr_w):
                 if pe is not None and not pe.closed and id(pe) not in seen:
@@ -396,6 +442,8 @@ class C17Episode(Episode):
         self.check_safety()
 
     def final(self):
+        for h in self.helpers.values():
+            self.stop_helper(h)
         self.check_safety()
         self.check_complete()
         self.check_eof_and_spin()
@@ -404,10 +452,72 @@ class C17Episode(Episode):
 
     def run(self):
         import circus.watcher
+        import circus.stream.redirector as _rmod
         try:
             return super().run()
         finally:
             circus.watcher.Redirector = self._orig_redirector
+            if getattr(self, '_orig_redir_os', None) is not None:
+                _rmod.os = self._orig_redir_os
+            for h in getattr(self, 'helpers', {}).values():
+                if h['pe'] is not None:
+                    h['pe'].release()
+                    h['pe'] = None
+
+    # ------------------------------------------------------------- helpers
+    def start_helper(self, pid, ch, lifetime):
+        k = self.world.kernel
+        p = k.procs.get(pid)
+        st = self.writers.get(pid)
+        if p is None or not p.alive or st is None:
+            return
+        pe = self.pipe_of(p, ch)
+        f = getattr(p.popen, ch, None) if p.popen is not None else None
+        if pe is None or pe.closed or f is None or f.closed:
+            return
+        h = {'pid': pid, 'ch': ch, 'pe': pe.acquire(), 'active': True}
+        self.helpers[f.fileno()] = h
+        st.setdefault('flooded', set()).add(ch)
+        self.fired['helper_floods_pipe'] += 1
+        self.helper_fill(h)
+        self.helper_tick(h)
+        self.world.sim.after(lifetime, lambda: self.stop_helper(h), 'write')
+
+    def helper_fill(self, h):
+        """the helper writes until the pipe is full again"""
+        st = self.writers.get(h['pid'])
+        pe = h['pe']
+        if st is None or pe is None or pe.closed:
+            h['active'] = False
+            return
+        for _ in range(80):
+            start = st['written'][h['ch']]
+            data = content(h['pid'], h['ch'], start, 4096)
+            try:
+                n = os.write(pe.fd, data)
+            except BlockingIOError:
+                return
+            except OSError:
+                h['active'] = False      # the daemon closed its end
+                return
+            st['written'][h['ch']] += n
+            if 'chunks' in st:
+                st['chunks'][h['ch']] += 1
+            self.fired['bytes_written'] += n
+            if n < len(data):
+                return
+
+    def helper_tick(self, h):
+        if not h['active']:
+            return
+        self.helper_fill(h)
+        self.world.sim.after(0.05, lambda: self.helper_tick(h), 'write')
+
+    def stop_helper(self, h):
+        h['active'] = False
+        if h['pe'] is not None:
+            h['pe'].release()
+            h['pe'] = None
 
 
 def gen_plan(rng, big=False):
@@ -419,6 +529,12 @@ def gen_plan(rng, big=False):
         writes.append([rng.choice([0.0, 0.0, 0.001, 0.01, 0.1, 0.5]),
                        rng.choice(['stdout', 'stdout', 'stderr']), size])
     plan = {'writes': writes}
+    if rng.random() < 0.12:
+        # a descendant that inherited the pipe, outlives the worker for a
+        # while and writes as fast as the pipe takes it
+        plan['helper'] = {'ch': rng.choice(['stdout', 'stderr']),
+                          'at': rng.choice([0.0, 0.05, 0.3]),
+                          'life': rng.choice([0.5, 1.5, 3.0])}
     x = rng.random()
     if x < 0.25:
         plan['close'] = [rng.choice(['stdout', 'stderr']),
@@ -467,6 +583,11 @@ class C17(Prop):
         for wc in cfg['watchers']:
             wc['plans'] = [gen_plan(rng, big) for _ in range(rng.choice(
                 [1, 2, 4]))]
+            if any(pl.get('helper') for pl in wc['plans']):
+                # the flush before a pipe is closed is bounded by bytes
+                # (1 MiB): keep the number of reads that means small
+                cfg['buffer'] = max(cfg['buffer'], 1024)
+                cfg['flush_read_bound'] = 3000
             wc['channels'] = rng.choice([['stdout', 'stderr'],
                                          ['stdout', 'stderr'], ['stdout']])
         nw = len(cfg['watchers'])
